@@ -29,6 +29,10 @@ Inductive case : Type :=
 | CHash (k : list kval) (seed : N) (obs : list N)
 (* sweep: keys lo, lo+1, ... of one 8/16-bit type, each observed at two placements *)
 | CHashRange (t : ity) (seed : N) (lo : Z) (obsA obsB : list N)
+(* the same key hashed through Frame.HashWithSeed in two separately started OS
+   processes (each at a few placements): obs1 by the driver, obs2 by a second process;
+   ns are shard counts for which the shard (hash mod n) is compared as well *)
+| CCross (k : list kval) (seed : N) (ns : list Z) (obs1 obs2 : list N)
 (* end to end: producers -> batches -> rows, whether Run failed, the (key, shard)
    pairs recorded after the operator, and the same recorded by a second OS process *)
 | CPart (op : opk) (n : Z) (prods : list (list (list irow))) (failed : bool)
@@ -89,6 +93,7 @@ Definition case_exact (c : case) : bool :=
   | CHashRange t seed lo obsA obsB =>
       let hs := map (hash_val seed) (range_keys t lo (length obsA)) in
       list_eqb N.eqb hs obsA && list_eqb N.eqb hs obsB
+  | CCross k seed _ obs1 obs2 => let h := key_hash seed k in forallb (N.eqb h) (obs1 ++ obs2)
   | CPart op n prods failed outs other =>
       match predicted op n prods with
       | None => failed
@@ -128,8 +133,20 @@ Fixpoint all_eq (l : list N) : bool :=
   | _ => true
   end.
 
+(* the shard the default partitioner derives from an observed hash *)
+Definition shard_of_hash (h : N) (n : Z) : N := N.modulo h (u32_of_Z n).
+
 Definition case_ok (c : case) : bool :=
   match c with
+  (* both processes observed something, all hashes agree, hence all shards agree;
+     judged on the observations alone: the model's value is not consulted *)
+  | CCross _ _ ns obs1 obs2 =>
+      match obs1, obs2 with
+      | h1 :: _, _ :: _ =>
+          all_eq (obs1 ++ obs2)
+          && forallb (fun n => forallb (fun h => N.eqb (shard_of_hash h n) (shard_of_hash h1 n)) (obs1 ++ obs2)) ns
+      | _, _ => false
+      end
   | CHash _ _ obs => all_eq obs                          (* position/process independent *)
   | CHashRange _ _ _ obsA obsB => list_eqb N.eqb obsA obsB
   | CPart op n prods failed outs other =>
